@@ -23,13 +23,73 @@ func PointOf(ins ssa.Instruction) Point {
 	return Point{b, -1}
 }
 
-// EachInstr visits every instruction of fn (not of nested closures).
+// EachInstr visits every instruction of fn (not of nested closures). Functions that did not exist at review
+// time (IsNew) are visited where they are called, as if their bodies were still part of fn.
 func EachInstr(fn *ssa.Function, f func(ssa.Instruction)) {
+	eachInstr(fn, f, map[*ssa.Function]bool{fn: true})
+}
+
+func eachInstr(fn *ssa.Function, f func(ssa.Instruction), seen map[*ssa.Function]bool) {
 	for _, b := range fn.Blocks {
 		for _, ins := range b.Instrs {
 			f(ins)
+			if ci, ok := ins.(ssa.CallInstruction); ok {
+				// visited once per call site (a helper used twice stands for two copies of its body)
+				if sc := ci.Common().StaticCallee(); sc != nil && !seen[sc] && IsNew(sc) {
+					seen[sc] = true
+					eachInstr(sc, f, seen)
+					delete(seen, sc)
+				}
+			}
 		}
 	}
+}
+
+// Blocks lists the basic blocks of fn followed by those of the new functions it calls (see EachInstr).
+func Blocks(fn *ssa.Function) []*ssa.BasicBlock {
+	out := append([]*ssa.BasicBlock{}, fn.Blocks...)
+	seen := map[*ssa.Function]bool{fn: true}
+	var add func(f *ssa.Function)
+	add = func(f *ssa.Function) {
+		for _, b := range f.Blocks {
+			for _, ins := range b.Instrs {
+				if ci, ok := ins.(ssa.CallInstruction); ok {
+					if sc := ci.Common().StaticCallee(); sc != nil && !seen[sc] && IsNew(sc) {
+						seen[sc] = true
+						out = append(out, sc.Blocks...)
+						add(sc)
+					}
+				}
+			}
+		}
+	}
+	add(fn)
+	return out
+}
+
+// liftChain returns ins followed by the call sites through which its (new) enclosing functions are entered,
+// innermost first; ok is false when some level has no unique call site.
+func liftChain(ins ssa.Instruction) ([]ssa.Instruction, bool) {
+	chain := []ssa.Instruction{ins}
+	for depth := 0; depth < 6; depth++ {
+		fn := chain[len(chain)-1].Parent()
+		if !IsNew(fn) || fn.Parent() != nil {
+			return chain, true
+		}
+		sites := SitesOf(fn)
+		if len(sites) != 1 {
+			return chain, len(sites) == 0
+		}
+		chain = append(chain, sites[0].(ssa.Instruction))
+	}
+	return chain, false
+}
+
+// runsOnEveryPathThrough: ins is executed on every path from the entry of its function to a return.
+func runsOnEveryPathThrough(ins ssa.Instruction) bool {
+	fn := ins.Parent()
+	q := PathQuery{Fn: fn, Stop: func(i ssa.Instruction) bool { return i == ins }, Target: IsReturn, noInline: true}
+	return q.ReachableFrom(EntryPoint(fn)) == nil
 }
 
 // EachInstrDeep visits fn and every closure literal nested in it.
@@ -114,30 +174,115 @@ func NamedIs(t types.Type, pkgPath, typeName string) bool {
 // EdgeFilter lets a rule prune CFG edges (e.g. only the err != nil edge).
 type EdgeFilter func(from *ssa.BasicBlock, succIndex int) bool
 
-// PathQuery searches the instruction-level CFG.
+// PathQuery searches the instruction-level CFG. Calls of functions that did not exist at review time are
+// searched through as if inlined, and a search that starts inside such a function continues after its call sites.
 type PathQuery struct {
-	Fn     *ssa.Function
-	Edge   EdgeFilter                     // nil = all edges
-	Stop   func(ssa.Instruction) bool     // paths end (successfully) at such an instruction
-	Target func(ssa.Instruction) bool     // reaching one of these = found
+	Fn       *ssa.Function
+	Edge     EdgeFilter                 // nil = all edges
+	Stop     func(ssa.Instruction) bool // paths end (successfully) at such an instruction
+	Target   func(ssa.Instruction) bool // reaching one of these = found
+	noInline bool
 }
 
 // ReachableFrom reports whether some path starting right after `from` reaches a Target instruction
 // without first passing a Stop instruction. Returns the target found.
 func (q PathQuery) ReachableFrom(from Point) ssa.Instruction {
-	type key struct {
-		b *ssa.BasicBlock
-	}
 	seen := map[*ssa.BasicBlock]bool{}
+	inside := map[*ssa.Function]bool{}
 	var visit func(b *ssa.BasicBlock, start int) ssa.Instruction
+	// through searches a new function from its entry: the target found inside, and whether some path reaches one
+	// of its returns without a Stop
+	var through func(g *ssa.Function, depth int) (ssa.Instruction, bool)
+	through = func(g *ssa.Function, depth int) (ssa.Instruction, bool) {
+		if depth > 4 || inside[g] || len(g.Blocks) == 0 {
+			return nil, true
+		}
+		inside[g] = true
+		defer delete(inside, g)
+		gseen := map[*ssa.BasicBlock]bool{}
+		falls := false
+		var walk func(b *ssa.BasicBlock) ssa.Instruction
+		walk = func(b *ssa.BasicBlock) ssa.Instruction {
+			for _, ins := range b.Instrs {
+				if q.Stop != nil && q.Stop(ins) {
+					return nil
+				}
+				if _, isRet := ins.(*ssa.Return); isRet {
+					falls = true
+					return nil
+				}
+				if q.Target != nil && q.Target(ins) {
+					return ins
+				}
+				if ci, ok := ins.(ssa.CallInstruction); ok && !q.noInline {
+					if _, isGo := ins.(*ssa.Go); !isGo {
+						if sc := ci.Common().StaticCallee(); sc != nil && IsNew(sc) {
+							if _, isDefer := ins.(*ssa.Defer); !isDefer {
+								hit, f2 := through(sc, depth+1)
+								if hit != nil {
+									return hit
+								}
+								if !f2 {
+									return nil
+								}
+							}
+						}
+					}
+				}
+			}
+			for si, s := range b.Succs {
+				if q.Edge != nil && !q.Edge(b, si) {
+					continue
+				}
+				if gseen[s] {
+					continue
+				}
+				gseen[s] = true
+				if r := walk(s); r != nil {
+					return r
+				}
+			}
+			return nil
+		}
+		gseen[g.Blocks[0]] = true
+		hit := walk(g.Blocks[0])
+		return hit, falls
+	}
 	visit = func(b *ssa.BasicBlock, start int) ssa.Instruction {
 		for i := start; i < len(b.Instrs); i++ {
 			ins := b.Instrs[i]
 			if q.Stop != nil && q.Stop(ins) {
 				return nil
 			}
+			if _, isRet := ins.(*ssa.Return); isRet && !q.noInline && b.Parent() != q.Fn && IsNew(b.Parent()) {
+				// leaving a helper the search started in: continue after its call sites
+				for _, site := range SitesOf(b.Parent()) {
+					si := site.(ssa.Instruction)
+					if _, isGo := si.(*ssa.Go); isGo {
+						continue
+					}
+					pt := PointOf(si)
+					if r := visit(pt.B, pt.Idx+1); r != nil {
+						return r
+					}
+				}
+				return nil
+			}
 			if q.Target != nil && q.Target(ins) {
 				return ins
+			}
+			if ci, ok := ins.(ssa.CallInstruction); ok && !q.noInline {
+				_, isGo := ins.(*ssa.Go)
+				_, isDefer := ins.(*ssa.Defer)
+				if sc := ci.Common().StaticCallee(); sc != nil && !isGo && !isDefer && IsNew(sc) {
+					hit, falls := through(sc, 0)
+					if hit != nil {
+						return hit
+					}
+					if !falls {
+						return nil
+					}
+				}
 			}
 		}
 		for si, s := range b.Succs {
@@ -221,12 +366,12 @@ func IfCond(b *ssa.BasicBlock) (*ssa.If, *CondInfo) {
 	if !ok {
 		return nil, nil
 	}
-	c := iff.Cond
+	c := ThroughNew(iff.Cond)
 	neg := false
 	for {
 		if u, ok := c.(*ssa.UnOp); ok && u.Op == token.NOT {
 			neg = !neg
-			c = u.X
+			c = ThroughNew(u.X)
 			continue
 		}
 		break
@@ -289,8 +434,42 @@ func NilEdge(isVal func(ssa.Value) bool, wantNonNil bool) EdgeFilter {
 	}
 }
 
-// Dominates reports whether instruction a dominates instruction b (same function).
+// Dominates reports whether instruction a dominates instruction b. Instructions inside functions that did not
+// exist at review time are related through their unique call sites.
 func Dominates(a, b ssa.Instruction) bool {
+	if a.Parent() == b.Parent() {
+		return dominatesLocal(a, b)
+	}
+	ca, okA := liftChain(a)
+	cb, okB := liftChain(b)
+	if !okA || !okB || ca[len(ca)-1].Parent() != cb[len(cb)-1].Parent() {
+		return false
+	}
+	i, j := len(ca)-1, len(cb)-1
+	for i > 0 && j > 0 && ca[i] == cb[j] {
+		i--
+		j--
+	}
+	x, y := ca[i], cb[j]
+	if x.Parent() != y.Parent() {
+		return false
+	}
+	if x == y {
+		// one of them is the call through which the other is reached: the call precedes its body, not the reverse
+		return i == 0 && j > 0
+	}
+	if !dominatesLocal(x, y) {
+		return false
+	}
+	for k := 0; k < i; k++ {
+		if !runsOnEveryPathThrough(ca[k]) {
+			return false
+		}
+	}
+	return true
+}
+
+func dominatesLocal(a, b ssa.Instruction) bool {
 	pa, pb := PointOf(a), PointOf(b)
 	if pa.B == pb.B {
 		return pa.Idx < pb.Idx
@@ -496,3 +675,27 @@ func CellValueAt(v ssa.Value) ssa.Value {
 	}
 	return nil
 }
+
+// ThroughNew follows the result of a call to a function that did not exist at review time (typically an
+// extracted predicate) to the value that function returns, when it has a single return statement.
+func ThroughNew(v ssa.Value) ssa.Value {
+	for depth := 0; depth < 4; depth++ {
+		c, ok := v.(*ssa.Call)
+		if !ok {
+			return v
+		}
+		callee := c.Call.StaticCallee()
+		if callee == nil || !IsNew(callee) || c.Call.Signature().Results().Len() != 1 {
+			return v
+		}
+		rets := ReturnedValues(callee, 0)
+		if len(rets) != 1 {
+			return v
+		}
+		v = rets[0]
+	}
+	return v
+}
+
+// CondOf is the condition of an If seen through extracted predicates.
+func CondOf(iff *ssa.If) ssa.Value { return ThroughNew(iff.Cond) }
